@@ -20,6 +20,7 @@ UNIT_MAP = {
     'host_values': ['gc_roots'],
     'stdlib_natives': ['native_keys', 'callback_mutation'],
     'instr_rooting': ['operand_rooting'],
+    'native_args': ['operand_rooting'],
     'stdlib_reentry': ['callback_mutation'],
     'stdlib_contracts': ['stdlib_model'],
     'names': ['name_resolution'],
